@@ -169,3 +169,73 @@ func runCreateRace(rcx *RunCtx, k int) {
 	})
 	finishRun(rcx)
 }
+
+// Replace-race: a Twalk onto a fid number that is bound (A) is parked inside
+// the Close of the File it displaces; a second request on that fid number (B)
+// - which now denotes the new File - is issued meanwhile.  Whatever the order,
+// every File ends up closed exactly once and none is used after its Close.
+var replaceRaceB = []struct {
+	name string
+	m    func() rc.Message
+}{
+	{"clunk", func() rc.Message { return &rc.Tclunk{Fid: 1} }},
+	{"getattr", func() rc.Message { return &rc.Tgetattr{Fid: 1, Mask: rc.GetattrAll} }},
+	{"clone", func() rc.Message { return &rc.Twalk{Fid: 1, NewFid: 5} }},
+	{"remove", func() rc.Message { return &rc.Tremove{Fid: 1} }},
+	{"walk-again", func() rc.Message { return &rc.Twalk{Fid: 0, NewFid: 1, Names: []string{"a"}} }},
+}
+
+const replaceRaceSchedules = 24
+
+func replaceRaceCount() int { return len(replaceRaceB) * replaceRaceSchedules }
+
+func runReplaceRace(rcx *RunCtx, k int) {
+	cfg := simCfg(rcx)
+	b := replaceRaceB[k%len(replaceRaceB)]
+	rcx.Label = "replace-race " + b.name
+	rcx.Sample = map[string]interface{}{"scenario": "Twalk onto a bound fid number parked in the displaced File's Close, racing with " + b.name + " on that fid"}
+	rcx.Res = simrt.Run(cfg, rcx.Sched, func() {
+		fs := simfs.New()
+		fs.WalkGetAttrENOSYS = rcx.Plan.Choose(2) == 1
+		fs.MkPath("/a/")
+		fs.MkPath("/b")
+		fs.MkPath("/c")
+		w := NewWorld(nil, fs)
+		c := w.Connect()
+		if !c.Start(8192, "9P2000.L.Google.7") || !c.WalkTo(0, 1, "/b") {
+			rcx.Find("C05", "setup", "setup", "setup failed")
+			return
+		}
+		var held *simfs.Call
+		mark := fs.NCalls
+		fs.Hold = func(cl *simfs.Call) bool {
+			if held == nil && cl.Seq >= mark && cl.Method == "Close" {
+				held = cl
+				return true
+			}
+			return false
+		}
+		reqA := c.Send(c.Tag(), &rc.Twalk{Fid: 0, NewFid: 1, Names: []string{"c"}})
+		simrt.WaitQuiescent()
+		if held == nil {
+			rcx.Trivial = true
+		}
+		reqB := c.Send(c.Tag(), b.m())
+		simrt.WaitQuiescent()
+		fs.Hold = nil
+		if held != nil {
+			held.Release()
+		}
+		simrt.WaitQuiescent()
+		if reqA.Reply == nil || reqB.Reply == nil {
+			rcx.Find("C06", "no-reply", "replace-race", "walk answered: %v, %s answered: %v", reqA.Reply != nil, b.name, reqB.Reply != nil)
+		}
+		for _, fid := range []uint32{1, 5} {
+			c.Send(c.Tag(), &rc.Tclunk{Fid: fid})
+			simrt.WaitQuiescent()
+		}
+		w.Shutdown()
+		rcx.Findings = append(rcx.Findings, w.Findings...)
+	})
+	finishRun(rcx)
+}
